@@ -93,14 +93,18 @@ class FileBasedTapeCassette(TapeCassette):
             recording_id = file_name.split('.')[0]
             recording = self.get_recording(recording_id)
 
+            # The file name prefix also matches longer categories (e.g. 'A' and 'AB'), compare the actual category
+            if self.extract_recording_category(recording.id) != category:
+                continue
+
             if metadata:
                 # Filter based on metadata if provided
-                if not all(metadata[key] == recording.get_metadata()[key] for key in metadata.keys()):
+                if not TapeCassette.match_against_recorded_metadata(metadata, recording.get_metadata()):
                     continue
 
             ids.append(recording.id)
 
-        if limit:
+        if limit is not None:
             ids = ids[:limit]
 
         return iter(ids)
